@@ -51,11 +51,47 @@ Compile scheme (this is the trusted part: what is assumed about Python)
   * random draws and callables held by `self` are parameters of the generated function (oracles), declared in
     the spec entry; attribute / subscript chains on parameters are translated only through the spec's binding
     table and accessor tables (e.g. `p[-1] -> mp`, `p[:-1] -> p`, `x.features['front_number'] -> x.front`).
-  Rejected: while, try, with, comprehensions and generator expressions, lambda, nested def, nested for,
-  for/else, chained comparison, chained / tuple assignment, assignment to a parameter, slices and negative
-  indices outside the binding table, keyword arguments, `//`, `**`, `int()`, `round()`, string operations,
-  unknown calls and attributes, decorators other than staticmethod/classmethod, parameter defaults, a
-  variable whose type changes, control falling off the end of a function without `none_ret` in the spec.
+  * nested loops: a loop inside a loop body is compiled to a function of the variables it *assigns* (carried,
+    returned as a tuple - `some (..)` when the function can raise) and of the variables it only reads (extra
+    parameters, among them the loop variables of the enclosing loops); its `[]` case returns the carried
+    variables, `break` likewise, `continue` is the recursive call, `return` inside a nested loop is rejected.
+    The code after the inner loop continues at the call site with the returned values
+    (`match inner .. with | some (a, b) => rest | none => none`), so the enclosing loop stays structurally
+    recursive (no mutual recursion).  Top-level loops keep the continuation-passing form above.
+  * `while c: body; rest` needs a *fuel* from the spec entry (`fuel: ["n + 1"]`, a Lean term over the parameters):
+    `<fn>_loop<k>` recurses on the fuel; each pass first evaluates `c` (false: `rest`), then needs one unit of
+    fuel (`0 => none`), so "the fuel suffices" is a theorem of the Tie file, never an assumption.  The fuel may
+    also be an oracle list (`{"stream": "pairs", "elem": T, "pattern": (a, b)}`): every pass consumes one member,
+    whose components are the values of the free names `a`, `b` during that pass; the list running dry is `none`.
+  * `for x in X[v - a]` / `for x in obj.features['key']` iterate the value at loop entry; accepted only when the body
+    cannot mutate that list object (see `snapshot_guard`; for `X[v - a]` with `X[v - b].append(..)` in the body,
+    a != b, the guard `0 <= v - max(a, b)` is emitted: negative indices could alias).
+  * objects with mutable attributes: the spec entry says how they are represented -
+    `tables` (one list per feature, indexed by the object's position; reads are `xs[i]?`, writes are guarded
+    `List.set`, `+=` / `.append` read first), `fields` (attributes of one object = fields of a record state
+    variable), accessors with a *setter* for `xs[i].a['k'] = e` on a list of record values (the list is rebound
+    with member i replaced: valid because members are distinct objects; stated in the spec entry).
+  * further forms: `range(a, b)` -> `List.range' a (b - a)` (an Int upper bound through `Int.toNat`); tuple
+    assignment `a, b = e1, e2` (right-hand sides first) and `q, r = divmod(a, b)` on naturals (guard `b != 0`);
+    `int op float` -> the exact rational; `None` / `is None` on values the spec types as `Option`;
+    `xs[i].append(e)` / `xs.pop()` / `xs.sort(key=lambda x: e)` (all keys first - `pyKeys`, a raising key aborts -
+    then a stable `List.mergeSort` on `key a <= key b` - `pySort`; needs `sort: <key type>` in the spec);
+    `any(<test> for x in xs)` / `all(..)` -> `List.any` / `List.all` (exactly this generator form, the test must
+    not raise); `if a and b:` with a raising operation in `b` is rewritten to nested `if`s (`or` likewise).
+  * `try` ONLY in the oracle form of the spec entry (`try:` key): the first statement of the body is
+    `x = <oracle call>`, the single raising operation; the outcome class of the oracle (a constructor of the
+    spec's outcome type) selects the rest of the body or the handler mapped to it; exceptions are then *values*
+    of the result (`raise:` map, bare `raise` = the handler's `reraise` value) and the function is compiled with
+    raises=False, so any other raising operation is rejected.
+  * `ignore:` statements of the spec entry are removed before compilation and listed in the generated header
+    with the reason (an entry that matches nothing is an error).
+  Rejected: with, comprehensions, generator expressions other than any()/all(), lambda other than a sort key,
+  nested def, `while` without fuel, `try` other than the oracle form, return inside a nested loop, for/else,
+  while/else, chained comparison, chained assignment, assignment to a parameter, slices and negative indices
+  outside the binding table, keyword arguments, `//`, `**`, `int()`, `round()`, string operations, unknown calls
+  and attributes, decorators other than staticmethod/classmethod, parameter defaults (unless allow_defaults), a
+  variable whose type changes, aliasing of lists that are mutated, mutation of a list while a loop iterates over
+  it, control falling off the end of a function without `none_ret` in the spec.
 """
 import argparse
 import ast
@@ -187,6 +223,11 @@ class FuelMatch(N):              # match fuel with | 0 => none | pred + 1 => bod
         self.fuel, self.pred, self.body, self.none, self.pat = fuel, pred, body, none, pat
 
 
+class MatchCases(N):             # match e with | pat1 => b1 | pat2 => b2 ...   (pats: (text, bound names))
+    def __init__(self, e, cases):
+        self.e, self.cases = e, cases
+
+
 class Lam(N):                    # fun x => body
     def __init__(self, x, body):
         self.x, self.body = x, body
@@ -260,6 +301,10 @@ def fv(n, bound=frozenset(), acc=None):
         fv(n.none, bound, acc)
     elif isinstance(n, Lam):
         fv(n.body, bound | frozenset(pat_vars(n.x)), acc)
+    elif isinstance(n, MatchCases):
+        fv(n.e, bound, acc)
+        for (ptxt, names), b in n.cases:
+            fv(b, bound | frozenset(names), acc)
     elif isinstance(n, Tup):
         for a in n.items:
             fv(a, bound, acc)
@@ -301,6 +346,8 @@ def pe(n):
         return "(match %s with | 0 => %s | %s + 1 => %s)" % (n.fuel, pe(n.none), n.pred, pe(n.body))
     if isinstance(n, Lam):
         return "(fun %s => %s)" % (pat_show(n.x), pe(n.body))
+    if isinstance(n, MatchCases):
+        return "(match %s with %s)" % (pe(n.e), " ".join("| %s => %s" % (p[0], pe(b)) for p, b in n.cases))
     if isinstance(n, Tup):
         return "(" + ", ".join(pe(a) for a in n.items) + ")"
     if isinstance(n, Rec):
@@ -331,6 +378,12 @@ def pp(n, ind):
     if isinstance(n, MatchOpt):
         out = [sp + "(match %s with" % pe(n.e), sp + "| some %s =>" % pat_show(n.x)] + pp(n.body, ind + 1)
         out += [sp + "| none => %s)" % pe(n.none)]
+        return out
+    if isinstance(n, MatchCases):
+        out = [sp + "(match %s with" % pe(n.e)]
+        for p, b in n.cases:
+            out += [sp + "| %s =>" % p[0]] + pp(b, ind + 1)
+        out[-1] += ")"
         return out
     if isinstance(n, FuelMatch):
         if n.pat is not None:
@@ -375,11 +428,14 @@ class Fn:
         self.none_ret = spec.get("none_ret")      # Lean text returned when the function falls off its end
         self.vartype = {}                         # literal-typing hints found by the previous pass
         self.lean_param_names = [p for p, _ in self.params]
+        self.fields = spec.get("fields", {})      # unparse text of an attribute -> (record state var, field, type)
+        self.reraise = None                       # value of a bare `raise` inside the handler being compiled
         self.tables = spec.get("tables", {})      # per-object feature tables: lean var -> value type (a list by position)
         self.fuel = list(spec.get("fuel", []))    # Lean text of the fuel of the k-th `while` loop (source order)
         self.table_keys = {}                      # "['key']" -> table, for the syntactic mutation analysis
         for tb in self.types.values():
-            for acc, (tmpl, _) in tb.items():
+            for acc, ent in tb.items():
+                tmpl = ent[0]
                 if tmpl.startswith("@"):
                     self.table_keys[acc] = tmpl[1:]
         TYPE_ALIAS.clear()
@@ -426,6 +482,12 @@ class Fn:
             env[lv] = ty
         for tb, ty in self.tables.items():
             env[tb] = ("List", ty)
+        for gv, ty in self.s.get("ghost_state", {}).items():
+            env[gv] = ty
+        tests = {ast.unparse(n.test) for n in ast.walk(self.fn) if isinstance(n, ast.If)}
+        for t in self.s.get("static", {}):
+            if t not in tests:
+                bad(self.fn, "the test `%s` that the spec entry specialises is not in the source" % t)
         stmts = self.fn.body
 
         def fall(env):
@@ -503,10 +565,28 @@ class Fn:
                         and isinstance(a.op, (ast.Add, ast.Sub, ast.Mult)):
                     tgt = a.target
                     val = ast.BinOp(left=ast.Name(id=tgt.id, ctx=ast.Load()), op=a.op, right=a.value, lineno=a.lineno)
+                elif self.s.get("if_convert_append") and isinstance(a, ast.Expr) and isinstance(a.value, ast.Call) \
+                        and isinstance(a.value.func, ast.Attribute) and a.value.func.attr == "append" \
+                        and isinstance(a.value.func.value, ast.Name) and len(a.value.args) == 1 \
+                        and not a.value.keywords:
+                    # xs.append(e) in a branch = `xs = xs ++ [e]` (spec option if_convert_append)
+                    x = a.value.func.value.id
+                    if x not in env2 or not (isinstance(env2[x], tuple) and env2[x][0] == "List") \
+                            or has_unknown(env2[x]) or x in self.vars or x in self.lean_param_names:
+                        return None
+                    pre, v, ty = self.expr(a.value.args[0], env2, env2[x][1])
+                    if pre:
+                        return None
+                    v = self.coerce(v, ty, env2[x][1], a)
+                    lets.append((x, Tm("({0} ++ [{1}])", [V(x), v])))
+                    if x not in xs:
+                        xs.append(x)
+                    continue
                 else:
                     return None
                 x = tgt.id
-                if x not in env or x in self.vars or x in self.lean_param_names:
+                if x not in env or ((x in self.vars or x in self.lean_param_names)
+                                    and x not in self.s.get("mutable_params", [])):
                     return None
                 if isinstance(env[x], tuple):
                     return None
@@ -581,6 +661,8 @@ class Fn:
             bad(st, "return inside a nested loop")
         if isinstance(st, ast.Return):
             if st.value is None:
+                if self.s.get("return_none") is not None:
+                    return self.finish(C(self.s["return_none"]), env)
                 if self.ret != "Unit":
                     bad(st, "bare `return` in a function whose spec result is not Unit")
                 return self.finish(C("()"), env)
@@ -588,6 +670,17 @@ class Fn:
             v = self.coerce(v, ty, self.ret, st)
             return self.wrap(pre, self.finish(v, env), st)
         if isinstance(st, ast.Raise):
+            rmap = self.s.get("raise")
+            if rmap is not None:
+                # exceptions are values of the result (spec `raise`: source text of the raised expression -> Lean value)
+                if st.exc is None:
+                    if self.reraise is None:
+                        bad(st, "bare raise outside a handler of the oracle")
+                    return self.finish(self.reraise, env)
+                key = ast.unparse(st.exc)
+                if key not in rmap:
+                    bad(st, "raise of something the spec entry does not name")
+                return self.finish(Tm(rmap[key], fv=self.mentions(rmap[key])), env)
             return self.none(st)
         if isinstance(st, ast.Break):
             if ctx is None:
@@ -607,6 +700,11 @@ class Fn:
             if not isinstance(st.op, (ast.Add, ast.Sub, ast.Mult)):
                 bad(st, "augmented assignment operator")
             return self.assign(st.target, st.value, st.op, st, env, after)
+        if isinstance(st, ast.If) and ast.unparse(st.test) in self.s.get("static", {}):
+            # the spec entry specialises the function to calls for which this test has a fixed value
+            # (listed in the generated header): only that branch is compiled
+            taken = st.body if self.s["static"][ast.unparse(st.test)] else st.orelse
+            return self.block(list(taken) + rest, env, k, ctx)
         if isinstance(st, ast.If) and isinstance(st.test, ast.BoolOp) and self.right_raises(st.test, env):
             # `if a and b: S else: T` with a raising operation in b  ==  `if a: (if b: S else: T) else: T`
             # (`if a or b: S else: T`  ==  `if a: S else: (if b: S else: T)`): exact in Python, b is only
@@ -642,6 +740,8 @@ class Fn:
             if st.orelse:
                 bad(st, "while/else")
             return self.loop(st, env, after)
+        if isinstance(st, ast.Try):
+            return self.try_oracle(st, env, after, ctx)
         if isinstance(st, ast.Expr) and isinstance(st.value, ast.Call):
             return self.effect(st, env, after)
         if isinstance(st, ast.Delete):
@@ -654,10 +754,66 @@ class Fn:
         if key in self.state:
             return self.state[key][0]
         if isinstance(tgt, ast.Name):
+            if tgt.id in self.s.get("mutable_params", []):
+                return tgt.id                          # a parameter used as a local (rebinding is `let` shadowing)
             if tgt.id in self.vars or tgt.id in self.lean_param_names or tgt.id in self.s["py_params"]:
                 bad(tgt, "assignment to a parameter")
             return tgt.id
         bad(tgt, "assignment target")
+
+    def try_oracle(self, st, env, after, ctx):
+        """`try: x = <oracle call>; S  except (A, B) as e: H1  except: H2` - ONLY this form: the first statement
+        of the body is the single raising operation, the call of the oracle named in the spec entry; its outcome
+        class (a constructor of the spec's outcome type) selects the continuation: the rest of the body, or the
+        handler whose exception classes the spec maps to that constructor.  The rest of the body must not raise
+        (the function is compiled with raises=False, so any raising operation in it is rejected)."""
+        t = self.s.get("try")
+        if t is None or st.orelse or st.finalbody:
+            bad(st, "try statement (only the oracle form of the spec entry is supported, without else/finally)")
+        if self.raises:
+            bad(st, "try in a function compiled with implicit exceptions (raises=True)")
+        first = st.body[0] if st.body else None
+        if not (isinstance(first, ast.Assign) and len(first.targets) == 1 and isinstance(first.targets[0], ast.Name)
+                and ast.unparse(first.value) == t["call"]):
+            bad(st, "the body of try does not start with `x = %s`" % t["call"])
+        for s0 in st.body[1:]:
+            for n in ast.walk(s0):
+                if isinstance(n, (ast.Raise, ast.Try)):
+                    bad(n, "raise / try inside the body of the oracle try")
+        x = self.target_var(first.targets[0], env)
+        # ghost bookkeeping of the call (spec): executed before the outcome is inspected
+        outcome = Tm(t["outcome"], fv=self.mentions(t["outcome"]))
+        cases = []
+        seen = set()
+
+        def with_ghost(e, k):
+            body = k(e)
+            for var, text in reversed(t.get("ghost", [])):
+                body = Let(var, Tm(text.replace("{", "{{").replace("}", "}}"), fv=self.mentions(text)), body)
+            return body
+        # success
+        tv = self.tmp()
+        env_ok = dict(self.forget(env, [x]))
+        env_ok[x] = t["ok"][1]
+        self.observed.setdefault(x, []).append(t["ok"][1])
+        ok_body = with_ghost(env_ok, lambda e: Let(x, V(tv), self.block(st.body[1:], e, after, ctx)))
+        cases.append(((t["ok"][0].format(tv), [tv]), ok_body))
+        for h in st.handlers:
+            key = ast.unparse(h.type) if h.type is not None else ""
+            if key not in t["handlers"] or key in seen:
+                bad(h, "exception handler that the spec entry does not map to an outcome class")
+            seen.add(key)
+            ptxt, names, rer = t["handlers"][key]
+            saved = self.reraise
+            self.reraise = Tm(rer, fv=self.mentions(rer)) if rer else None
+            try:
+                hb = with_ghost(env, lambda e: self.block(h.body, e, after, ctx))
+            finally:
+                self.reraise = saved
+            cases.append(((ptxt, list(names)), hb))
+        if seen != set(t["handlers"]):
+            bad(st, "a handler named in the spec entry is missing")
+        return MatchCases(outcome, cases)
 
     def table_ref(self, n, env):
         """`obj.features['key']` that the spec maps to a per-object table -> (pre, table, key term, value type)"""
@@ -673,24 +829,103 @@ class Fn:
         return pre, table[acc][0][1:], b, table[acc][1]
 
     def elem_ref(self, n, env):
-        """`xs[i]` on a local list variable -> (pre, xs, get term : Option, set(v) term : Option, element type)"""
-        if not (isinstance(n, ast.Subscript) and isinstance(n.value, ast.Name) and not isinstance(n.slice, ast.Slice)):
+        """`xs[i]` on a mutable list variable -> (pre, xs, get term : Option, put, element type);
+        put(v) -> (term, is Option): the list with member i replaced (`none` = IndexError)"""
+        if not (isinstance(n, ast.Subscript) and not isinstance(n.slice, ast.Slice)):
             return None
-        x = n.value.id
-        if x not in env or not (isinstance(env[x], tuple) and env[x][0] == "List") or x in self.lean_param_names:
+        key = ast.unparse(n.value)
+        if key in self.state:
+            x = self.state[key][0]
+        elif isinstance(n.value, ast.Name):
+            x = n.value.id
+        else:
+            return None
+        if x not in env or not (isinstance(env[x], tuple) and env[x][0] == "List"):
+            return None
+        if x in self.lean_param_names and x not in self.assigned:
             return None
         pre, i, ti = self.expr(n.slice, env, "Nat" if not isinstance(n.slice, ast.UnaryOp) else "Int")
+        if ti == "Nat":
+            return (pre, x, Tm("{0}[{1}]?", [V(x), i]),
+                    lambda v: (Tm("(List.set {0} {1} {2})", [V(x), i, v]), False), env[x][1])
         if ti == "IntLit":
             self.setlit(i, "Int", n)
             ti = "Int"
-        if ti == "Nat":
-            i, ti = self.coerce(i, "Nat", "Int", n), "Int"
         if ti != "Int":
             bad(n, "list index of type %s" % tshow(ti))
         self.need("pyGet")
         self.need("pySet")
         return (pre, x, Tm("(pyGet {0} {1})", [V(x), i]),
-                lambda v: Tm("(pySet {0} {1} {2})", [V(x), i, v]), env[x][1])
+                lambda v: (Tm("(pySet {0} {1} {2})", [V(x), i, v]), True), env[x][1])
+
+    def field_ref(self, n, env):
+        """`xs[i].a['k']`: a field of a member of a mutable list, through accessors of the spec that have a
+        setter template -> (elem_ref, getter template, setter template, field type)"""
+        path = []
+        m = n
+        while isinstance(m, (ast.Attribute, ast.Subscript)):
+            if isinstance(m, ast.Attribute):
+                path.append("." + m.attr)
+                m = m.value
+            elif isinstance(m.slice, ast.Constant) and isinstance(m.slice.value, str):
+                path.append("[%r]" % m.slice.value)
+                m = m.value
+            else:
+                break
+        if not path or not isinstance(m, ast.Subscript):
+            return None
+        ref = self.elem_ref(m, env)
+        if ref is None:
+            return None
+        ty = ref[4]
+        path.reverse()
+        for k, acc in enumerate(path):
+            table = self.types.get(ty) if isinstance(ty, str) else None
+            if table is None or acc not in table:
+                return None
+            ent = table[acc]
+            if k < len(path) - 1:
+                if ent[0] != "{0}":
+                    return None
+                ty = ent[1]
+            else:
+                if len(ent) < 3:
+                    bad(n, "assignment to %s, for which the spec has no setter" % acc)
+                return ref, ent[0], ent[2], ent[1]
+        return None
+
+    def assign_field(self, fr, tgt, value, op, st, env, after):
+        """`xs[i].field = e` / `+= e`: the member is a record value, the list is rebound with the member replaced
+        (valid because the members of the list are distinct objects - stated in the spec entry)"""
+        (pre, x, get, put, ety), getter, setter, fty = fr
+        t = self.tmp()
+        p2, v, ty = self.expr(value, env, fty)
+        if op is not None:
+            cur = Tm(getter, [V(t)])
+            v, ty = self.arith(op, cur, fty, v, ty, st)
+        v = self.coerce(v, ty, fty, st)
+        new = Tm(setter, [V(t), v])
+        pre = pre + [("bind", t, get)] + p2
+        term, opt = put(new)
+        env2 = self.forget(self.learn(env, pre), [x])
+        if opt:
+            t2 = self.tmp()
+            body = MatchOpt(term, t2, Let(x, V(t2), after(env2)), self.none(st))
+        else:
+            body = Let(x, term, after(env2))
+        return self.wrap(pre, body, st, env)
+
+    def arith(self, op, a, ta, b, tb, node):
+        """a <op> b for an augmented assignment on a field (spec `binops` first)"""
+        o = {ast.Add: "+", ast.Sub: "-", ast.Mult: "*"}[type(op)]
+        key = (tshow(ta), o, tshow(tb))
+        if key in self.s.get("binops", {}):
+            tmpl, ty = self.s["binops"][key]
+            return Tm(tmpl, [a, b]), ty
+        a, b, ty = self.unify(a, ta, b, tb, node)
+        if ty not in NUMERIC or (o == "-" and ty == "Nat"):
+            bad(node, "augmented assignment on a field of type %s" % tshow(ty))
+        return Op(o, a, b), ty
 
     def assign_table(self, ref, value, op, st, env, after):
         """`obj.features['key'] = e` / `+= e` on a table: functional update of the list at the object's position;
@@ -777,6 +1012,18 @@ class Fn:
         ref = self.table_ref(tgt, env)
         if ref is not None:
             return self.assign_table(ref, value, op, st, env, after)
+        fr = self.field_ref(tgt, env)
+        if fr is not None:
+            return self.assign_field(fr, tgt, value, op, st, env, after)
+        if ast.unparse(tgt) in self.fields:
+            # attribute of the object that the spec represents as a record state variable
+            if op is not None:
+                bad(st, "augmented assignment to a record field")
+            rv, fld, fty = self.fields[ast.unparse(tgt)]
+            pre, v, ty = self.expr(value, env, fty)
+            v = self.coerce(v, ty, fty, st)
+            env2 = self.forget(self.learn(env, pre), [rv])
+            return self.wrap(pre, Let(rv, Tm("{{ {0} with %s := {1} }}" % fld, [V(rv), v]), after(env2)), st, env)
         x = self.target_var(tgt, env)
         pre, v, ty = self.typed_value(x, value, tgt, op, st, env)
         if x in env and env[x] != ty and env[x] != "IntLit":
@@ -815,10 +1062,14 @@ class Fn:
                         bad(st, "append on a list element that is not a list")
                     p2, v, ty = self.expr(call.args[0], env, ety[1])
                     v = self.coerce(v, ty, ety[1], st)
-                t, t2 = self.tmp(), self.tmp()
+                t = self.tmp()
                 pre = pre + [("bind", t, get)] + p2
-                body = MatchOpt(setter(Tm("({0} ++ [{1}])", [V(t), v])), t2,
-                                Let(x, V(t2), after(self.forget(env, [x]))), self.none(st))
+                term, opt = setter(Tm("({0} ++ [{1}])", [V(t), v]))
+                if opt:
+                    t2 = self.tmp()
+                    body = MatchOpt(term, t2, Let(x, V(t2), after(self.forget(env, [x]))), self.none(st))
+                else:
+                    body = Let(x, term, after(self.forget(env, [x])))
                 return self.wrap(pre, body, st, env)
             x = self.target_var(f.value, env)
             if x not in env or not (isinstance(env[x], tuple) and env[x][0] == "List"):
@@ -852,6 +1103,36 @@ class Fn:
                             Let(x, Tm("(List.eraseIdx {0} {1})", [V(x), V(t)]), after(self.forget(env, [x]))),
                             self.none(st))
             return self.wrap(pre, body, st, env)
+        if isinstance(f, ast.Attribute) and f.attr == "sort" and not call.args and len(call.keywords) == 1 \
+                and call.keywords[0].arg == "key" and isinstance(call.keywords[0].value, ast.Lambda) \
+                and self.s.get("sort"):
+            # xs.sort(key=lambda x: e): all keys are evaluated first (an exception in any of them aborts the
+            # call), then the members are reordered by a stable sort on `key a <= key b` (CPython's list.sort is
+            # stable); `pyKeys` / `pySort` of the generated prelude, the order is that of the spec's `sort` type
+            lam = call.keywords[0].value
+            if len(lam.args.args) != 1 or lam.args.defaults or lam.args.vararg or lam.args.kwarg:
+                bad(st, "sort key that is not a one-parameter lambda")
+            x = self.target_var(f.value, env)
+            if x not in env or not (isinstance(env[x], tuple) and env[x][0] == "List"):
+                bad(st, "sort on something that is not a list variable")
+            lv = lam.args.args[0].arg
+            if lv in env or lv in self.lean_param_names:
+                bad(st, "lambda parameter shadows a variable in scope")
+            env2 = dict(env)
+            env2[lv] = env[x][1]
+            pk, kv, kty = self.expr(lam.body, env2)
+            if kty != self.s["sort"]:
+                bad(st, "sort key of type %s (the spec entry sorts by %s)" % (tshow(kty), tshow(self.s["sort"])))
+            if len(pk) == 1 and pk[0][0] == "bind" and isinstance(kv, V) and kv.name == pk[0][1]:
+                keyfn = Lam(lv, pk[0][2])
+            else:
+                keyfn = Lam(lv, self.wrap(pk, Tm("(some {0})", [kv]), st))
+            self.need("pyKeys")
+            self.need("pySort")
+            t = self.tmp()
+            body = MatchOpt(Tm("(pyKeys {0} {1})", [keyfn, V(x)]), t,
+                            Let(x, Tm("(pySort {0})", [V(t)]), after(self.forget(env, [x]))), self.none(st))
+            return body
         if isinstance(f, ast.Attribute) and f.attr == "pop" and not call.args and not call.keywords:
             # xs.pop() as a statement: drop the last member; IndexError on an empty list
             x = self.target_var(f.value, env)
@@ -890,6 +1171,8 @@ class Fn:
         key = ast.unparse(t)
         if key in self.state:
             return self.state[key][0]
+        if key in self.fields:
+            return self.fields[key][0]
         if isinstance(t, ast.Name):
             return t.id
         if isinstance(t, ast.Subscript):
@@ -897,6 +1180,8 @@ class Fn:
                     and "[%r]" % t.slice.value in self.table_keys:
                 return self.table_keys["[%r]" % t.slice.value]
             return self.lvalue_var(t.value)
+        if isinstance(t, ast.Attribute):
+            return self.lvalue_var(t.value)                  # xs[i].field = ..  rebinds xs
         return None
 
     def assigned_in(self, stmts):
@@ -1116,7 +1401,7 @@ class Fn:
             return self.wrap(pre, MatchOpt(Call(lp, lst), patc, after(env), self.none(st)), st)
         return self.wrap(pre, Let(patc, Call(lp, lst), after(env)), st)
 
-    def iterable(self, it, tgt, env):
+    def iterable(self, it, tgt, env, consumed_at_once=False):
         """-> (pre, Lean list term, element type, Lean pattern, {pattern var: type})"""
         def names(t, ty):
             if isinstance(t, ast.Name):
@@ -1143,6 +1428,9 @@ class Fn:
                     # range(a, b) = a, a+1, ..., b-1 (empty when b <= a: truncated subtraction)
                     p1, a, ta = self.expr(n.args[0], env, "Nat")
                     p2, b, tb = self.expr(n.args[1], env, "Nat")
+                    if tb == "Int" and ta in ("Nat", "IntLit"):
+                        # a >= 0: the members a <= x < b are those below b.toNat (none when b <= 0)
+                        b, tb = Tm("(Int.toNat {0})", [b]), "Nat"
                     if ta not in ("Nat", "IntLit") or tb not in ("Nat", "IntLit"):
                         bad(n, "range over values that are not natural numbers")
                     a, b = self.coerce(a, ta, "Nat", n), self.coerce(b, tb, "Nat", n)
@@ -1164,7 +1452,7 @@ class Fn:
                 if x in self.mutated:
                     bad(n, "iteration over a list that the function mutates in place (no snapshot)")
             return pre, v, ty[1], None
-        pre, v, ety, kind = lst(it)
+        pre, v, ety, kind = lst(it, consumed_at_once)      # a generator inside any()/all() cannot be overtaken by a mutation
         if kind == "enum":
             # Python: (index, element); List.zipIdx: (element, index)
             if not (isinstance(tgt, ast.Tuple) and len(tgt.elts) == 2):
@@ -1187,6 +1475,9 @@ class Fn:
         if ty == "IntLit" and want in NUMERIC:
             self.setlit(v, want, node)
             return v
+        ck = (tshow(ty), tshow(want)) if ty is not None and want is not None else None
+        if ck in self.s.get("coerce", {}):
+            return Tm(self.s["coerce"][ck], [v])
         if has_unknown(ty) and not has_unknown(want):
             # a list that starts empty used at a known type: the next typing pass declares it with that type
             self.unresolved = True
@@ -1253,7 +1544,7 @@ class Fn:
         table = self.types.get(tb) if isinstance(tb, str) else None
         if table is None or acc not in table:
             bad(node, "no accessor %s on a value of type %s in the spec" % (acc, tshow(tb)))
-        tmpl, ty = table[acc]
+        tmpl, ty = table[acc][0], table[acc][1]
         return Tm(tmpl, [base], fv=self.mentions(tmpl)), ty
 
     def expr(self, n, env, want=None):
@@ -1266,6 +1557,9 @@ class Fn:
         if key in self.state:
             lv, ty = self.state[key]
             return [], V(lv), ty
+        if key in self.fields:
+            rv, fld, ty = self.fields[key]
+            return [], Tm("{0}.%s" % fld, [V(rv)]), ty
         if isinstance(n, ast.Constant):
             v = n.value
             if v is None:
@@ -1399,6 +1693,22 @@ class Fn:
         if isinstance(sl, ast.Constant) and isinstance(sl.value, str):
             v, ty = self.accessor(b, tb, "[%r]" % sl.value, n)
             return pre, v, ty
+        if isinstance(tb, str) and tb in self.types:
+            acc = "[%s]" % ast.unparse(sl)
+            if acc in self.types[tb]:                      # a slice / index named in the spec, e.g. `[:-1]`
+                v, ty = self.accessor(b, tb, acc, n)
+                return pre, v, ty
+            if "[]" in self.types[tb] and not isinstance(sl, ast.Slice):
+                # indexing by a natural number, partial: template over {0} (the value) and {1} (the index)
+                tmpl, ty = self.types[tb]["[]"][0], self.types[tb]["[]"][1]
+                p2, i, ti = self.expr(sl, env, "Nat")
+                if ti == "IntLit":
+                    self.setlit(i, "Nat", n)
+                    ti = "Nat"
+                if ti != "Nat":
+                    bad(n, "index of type %s on a value of type %s" % (tshow(ti), tshow(tb)))
+                t = self.tmp()
+                return pre + p2 + [("bind", t, Tm(tmpl, [b, i]))], V(t), ty
         if isinstance(sl, ast.Slice):
             bad(n, "slice (only slices named in the binding table are supported)")
         if isinstance(tb, tuple) and tb[0] == "Prod":
@@ -1444,6 +1754,26 @@ class Fn:
             return pre, node, c["ret"]
         if n.keywords:
             bad(n, "keyword arguments")
+        if key in ("any", "all") and len(n.args) == 1 and isinstance(n.args[0], ast.GeneratorExp):
+            # exactly `any(<test> for x in xs)` / `all(...)`: List.any / List.all over the list value; the test
+            # must not contain a raising operation (it would be evaluated lazily in Python)
+            g = n.args[0]
+            if len(g.generators) != 1 or g.generators[0].ifs or g.generators[0].is_async:
+                bad(n, "generator expression with conditions or several `for` clauses")
+            gen = g.generators[0]
+            pre, xs, ety, pat, patenv = self.iterable(gen.iter, gen.target, env, True)
+            if has_unknown(ety):
+                self.unresolved = True
+                return pre, C("false"), "Bool"
+            env2 = dict(env)
+            for a, b in patenv.items():
+                if a in env or a in self.lean_param_names:
+                    bad(n, "generator variable shadows a variable in scope")
+                env2[a] = b
+            p2, c = self.cond(g.elt, env2)
+            if p2:
+                bad(n, "raising operation inside a generator expression")
+            return pre, Tm("(List.%s {0} {1})" % key, [xs, Lam(pat, Tm("(decide {0})", [c]))]), "Bool"
         if key == "abs" and len(n.args) == 1:
             pre, v, ty = self.expr(n.args[0], env)
             if ty in ("Int", "IntLit"):
@@ -1494,6 +1824,9 @@ class Fn:
 
     def cond(self, n, env):
         """-> (prelude, Prop term) for an expression in boolean position"""
+        if ast.unparse(n) in self.bind and self.bind[ast.unparse(n)][1] == "Bool":
+            text = self.bind[ast.unparse(n)][0]
+            return [], Op("=", Tm(text.replace("{", "{{").replace("}", "}}"), fv=self.mentions(text)), C("true"))
         if isinstance(n, ast.BoolOp):
             op = "∧" if isinstance(n.op, ast.And) else "∨"
             pre, c = self.cond(n.values[0], env)
@@ -1564,6 +1897,16 @@ HELPERS = {
     "pyGet": ("/-- `xs[k]` for a signed index (negative counts from the end); `none` = IndexError -/\n"
               "def pyGet {α : Type} (xs : List α) (k : Int) : Option α :=\n"
               "  if 0 ≤ k then xs[k.toNat]? else if -(xs.length : Int) ≤ k then xs[(xs.length + k).toNat]? else none"),
+    "pyKeys": ("/-- the keys of `xs.sort(key=f)`, each with its member; `none` = the key function raised -/\n"
+               "def pyKeys {α κ : Type} (key : α → Option κ) : List α → Option (List (κ × α))\n"
+               "  | [] => some []\n"
+               "  | x :: l =>\n"
+               "    match key x, pyKeys key l with\n"
+               "    | some k, some t => some ((k, x) :: t)\n"
+               "    | _, _ => none"),
+    "pySort": ("/-- `list.sort` on the keyed members: stable, ascending -/\n"
+               "def pySort {α : Type} (kx : List (Rat × α)) : List α :=\n"
+               "  (kx.mergeSort (fun a b => decide (a.1 ≤ b.1))).map (·.2)"),
     "pySet": ("/-- `xs[k] = v` (or an in-place update of `xs[k]`) for a signed index; `none` = IndexError -/\n"
               "def pySet {α : Type} (xs : List α) (k : Int) (v : α) : Option (List α) :=\n"
               "  if 0 ≤ k then (if k.toNat < xs.length then some (xs.set k.toNat v) else none)\n"
@@ -1713,8 +2056,8 @@ def normalise(fn, spec):
                 if isinstance(t, ast.Subscript):
                     mt = t.value
         if mt is not None:
-            tkeys = {acc: tmpl[1:] for tb in spec.get("types", {}).values() for acc, (tmpl, _) in tb.items()
-                     if tmpl.startswith("@")}
+            tkeys = {acc: ent[0][1:] for tb in spec.get("types", {}).values() for acc, ent in tb.items()
+                     if ent[0].startswith("@")}
             while isinstance(mt, ast.Subscript) and ast.unparse(mt) not in state:
                 if isinstance(mt.slice, ast.Constant) and "[%r]" % mt.slice.value in tkeys:
                     break
@@ -1728,31 +2071,49 @@ def normalise(fn, spec):
             assigned.add(x)
     for tb in spec.get("tables", {}):
         assigned.add(tb)
+    for gv in spec.get("ghost_state", {}):
+        assigned.add(gv)
+    for rv, _, _ in spec.get("fields", {}).values():
+        assigned.add(rv)
     return assigned, mutated
 
 
 def apply_ignore(fn, spec):
     """remove the statements that the spec entry explicitly ignores (exact source text after `ast.unparse`);
     an entry that matches nothing is an error"""
-    texts = [ast.unparse(ast.parse(t)) for t in spec.get("ignore", [])]
-    hit = set()
+    raw = [t if isinstance(t, str) else t[0] for t in spec.get("ignore", [])]
+    # an entry `re:<pattern>` is a regular expression that must match the whole unparsed statement
+    # (used where the statement mentions local names, so that renaming a local stays harmless)
+    texts = [t if t.startswith("re:") else ast.unparse(ast.parse(t)) for t in raw]
+    hit = {}
+
+    def match(u):
+        for t in texts:
+            if (t.startswith("re:") and re.fullmatch(t[3:], u)) or t == u:
+                return t
+        return None
 
     def clean(stmts):
         out = []
         for st in stmts:
             u = ast.unparse(st)
-            if u in texts:
-                hit.add(u)
+            if match(u) is not None:
+                hit.setdefault(match(u), []).append(u)
                 continue
             for fld in ("body", "orelse", "finalbody"):
-                if isinstance(getattr(st, fld, None), list) and not isinstance(st, ast.Try):
+                if isinstance(getattr(st, fld, None), list):
                     setattr(st, fld, clean(getattr(st, fld)) or ([ast.copy_location(ast.Pass(), st)] if fld == "body" else []))
+            for h in getattr(st, "handlers", []):
+                h.body = clean(h.body) or [ast.copy_location(ast.Pass(), h)]
             out.append(st)
         return out
     fn.body = clean(fn.body) or [ast.Pass()]
     for t in texts:
         if t not in hit:
             bad(fn, "statement that the spec entry ignores is not in the source: %s" % t.split("\n")[0])
+    whys = [(sp_why if isinstance(e, str) else e[1]) for e in spec.get("ignore", [])
+            for sp_why in [spec.get("ignore_why", "no reason given")]]
+    return [(u, why) for t, why in zip(texts, whys) for u in hit[t]]
 
 
 def blob_hash(data):
@@ -1781,10 +2142,11 @@ def generate(name, repo):
     consts = module_consts(tree)
     helpers = []
     defs = []
+    ignored = {}
     for spec in mod["functions"]:
         fn = find_function(tree, spec["py"])
         try:
-            apply_ignore(fn, spec)
+            ignored[spec["py"]] = apply_ignore(fn, spec)
             assigned, mutated = normalise(fn, spec)
             c = Fn(spec, fn, consts)
             c.assigned, c.mutated, c.helpers = assigned, mutated, helpers
@@ -1796,10 +2158,16 @@ def generate(name, repo):
            "git blob    : %s" % blob,
            "functions   : %s" % ", ".join(s["py"] for s in mod["functions"])]
     for sp in mod["functions"]:
-        for t in sp.get("ignore", []):
-            out.append("ignored     : %s: `%s`  (%s)" % (sp["py"], " ".join(x.strip() for x in t.split("\n")),
-                                                       sp.get("ignore_why", "no reason given")))
+        for t, why in ignored.get(sp["py"], []):
+            out.append("ignored     : %s: `%s`  (%s)" % (sp["py"], " ".join(x.strip() for x in t.split("\n")), why))
+        for t, v in sp.get("static", {}).items():
+            out.append("specialised : %s: `%s` is %s" % (sp["py"], t, v))
         for k, t in enumerate(sp.get("fuel", [])):
+            if isinstance(t, dict):
+                out.append("fuel        : %s: every pass of while loop %d consumes one member of the oracle list `%s` "
+                           "(its components are %s during the pass); the list running dry = none"
+                           % (sp["py"], k + 1, t["stream"], ", ".join(pat_vars(t["pattern"]))))
+                continue
             out.append("fuel        : %s: while loop %d runs on fuel `%s`; out of fuel = none" % (sp["py"], k + 1, t))
     out += ["-/"]
     out += ["import %s" % i for i in mod["imports"]]
